@@ -2,8 +2,8 @@
 import copy
 import numpy as np
 
-from sim.core import Violation, Inconclusive, SimRandom
-from sim.models import gen_pomdp_spec, POMDPView, make_pomdp, dyadic
+from sim.core import Violation, Inconclusive, InjectedAbort, SimRandom
+from sim.models import nested_pomdp_variant, gen_pomdp_spec, POMDPView, make_pomdp, dyadic
 from sim.refsolve import fsc_value, pomdp_arrays
 from sim.ctx import RunCtx, make_scheduler, gen_sched
 from sim import shrink as shr
@@ -61,6 +61,12 @@ def gen_case(rng, tier, idx):
     else:
         cfg = dict(what='ga', nodes=rng.randint(1, 2), iterations=rng.randint(1, 10), seed=rng.choice((0, 1, 5, 99)))
     plain = idx % 4 == 0
+    if cfg['what'] == 'exec' and not plain:
+        v = rng.random()
+        if v < 0.1:
+            cfg['nest'] = rng.randrange(1000)
+        elif v < 0.18:
+            cfg['abort'] = rng.randrange(1000)
     sched = gen_sched(rng, ('P',) if plain else ('P', 'U', 'R', 'R'), budget_choices=(None,), coop=False)
     return dict(spec=spec, cfg=cfg, sched=sched)
 
@@ -74,7 +80,7 @@ def execute(case, script=None):
     pv = POMDPView(case['spec'])
     ctx = RunCtx(PROP, None)
     ctx.declare_probes('exec_histories', 'multi_node_stochastic', 'evaluator_checked', 'absorbing_with_reward', 'bpi_runs', 'bpi_tables',
-                       'bpi_node_added', 'bpi_candidate_lowered_value', 'ga_runs', 'low_probability_action_taken', 'execution_longer_than_700_steps')
+                       'bpi_node_added', 'bpi_candidate_lowered_value', 'nested_run', 'rerun_after_abort', 'aborts_delivered', 'ga_runs', 'low_probability_action_taken', 'execution_longer_than_700_steps')
     sched = make_scheduler(case, script, ctx)
     try:
         cfg = case['cfg']
@@ -145,6 +151,29 @@ def _exec(pv, cfg, ctx, sched):
     pol = StochasticFiniteStateController(pomdp, As, Ns, ini)
     rng = SimRandom(sched)
     start = cfg['start']
+    if cfg.get('abort') is not None:
+        # fault F6: an execution of the SAME controller on the same model object dies at a model call-back
+        ctx.probe('rerun_after_abort')
+        hook = ctx.abort_after(1 + cfg['abort'] % 11)
+        try:
+            pol.run_on(pomdp, initial_state=None if start is None else sk[start], max_steps=8, rng=SimRandom(sched))
+        except InjectedAbort:
+            ctx.probe('aborts_delivered')
+        ctx.disarm(hook)
+    hookN = None
+    if cfg.get('nest') is not None:
+        # fault F10: at the k-th model call-back of the first execution, user code executes ANOTHER controller (other
+        # strategies, its own initial node distribution) on another POMDP with the same keys
+        nv = POMDPView(nested_pomdp_variant(pv.spec, cfg['nest']))
+        npomdp = make_pomdp(nv, None)
+        nAs, nNs = np.roll(As, 1, axis=1), np.roll(Ns, 1, axis=3)
+        nini = np.roll(ini, 1)
+
+        def nested():
+            ctx.probe('nested_run')
+            other = StochasticFiniteStateController(npomdp, nAs, nNs, nini)
+            other.run_on(npomdp, max_steps=4, rng=SimRandom(sched))
+        hookN = ctx.nest_after(1 + cfg['nest'] % 9, nested)
     for k in range(cfg['rollouts']):
         tag = f"execution {k}"
         try:
